@@ -100,15 +100,11 @@ func minimise(bin string, known *knownFile, prop string, c0 *cf.Case, rule strin
 		}
 		// simplifications
 		var cands []*cf.Case
-		if best.Sched.Mode != "canonical" {
-			c := best.Clone()
-			c.Sched.Mode, c.Sched.YieldN = "canonical", 0
-			cands = append(cands, c)
-			if best.Sched.Mode == "yield" {
-				c2 := best.Clone()
-				c2.Sched.Mode, c2.Sched.YieldN = "coin", 0
-				cands = append(cands, c2)
-			}
+		// (an always-first-case schedule would starve fair selects: "coin" is the simplest legal mode)
+		if best.Sched.Mode == "yield" {
+			c2 := best.Clone()
+			c2.Sched.Mode, c2.Sched.YieldN = "coin", 0
+			cands = append(cands, c2)
 		}
 		if best.Net.Model != "const" {
 			c := best.Clone()
